@@ -335,7 +335,7 @@ func search(f *vh.Flags, o *vh.Out) {
 	ngen := 150
 	if thorough {
 		maxSize = 400000
-		budget = 14 * time.Minute
+		budget = 11 * time.Minute
 		ngen = 1500
 	}
 	if *flagMaxSize > 0 {
